@@ -22,9 +22,11 @@ ASSUMPTIONS = [
     "the consequence clause 'a packet is accepted exactly when its check field is correct' depends on how a receiver drives the CRC units (clear/advance "
     "policy); for the SuperSpeed data packet receiver (header CRC5/CRC16 + payload CRC32 with every tail length) it is checked here too, with C40's "
     "complete DataPacketReceiver target and specification parser (reference CRCs) as oracle over simulator traces incl. aborted and back-to-back "
-    "packets; the kernel-checked lock-step for that receiver is C40's, the USB2 receivers' acceptance is C01/C02's",
+    "packets, and for the SuperSpeed header receiver (RawHeaderPacketReceiver, CRC-5 + header CRC-16; C37's target and declarative parser, "
+    "incl. header packets 0..3 words apart); the kernel-checked lock-steps for those receivers are C40's / C37's, the USB2 receivers' and the "
+    "link-command detector's acceptance is C01/C02/C35's",
 ]
-TIE_IMPORTS = "From LunaLib Require Import Affine.\nFrom LunaModel Require Import Crc Crc_proofs DataRx.\nRequire Import Run.Gen_kernels.\n"
+TIE_IMPORTS = "From LunaLib Require Import Affine.\nFrom LunaModel Require Import Crc Crc_proofs DataRx HdrRx.\nRequire Import Run.Gen_kernels.\n"
 
 
 # ---------------------------------------------------------------------------------------------
@@ -59,13 +61,17 @@ def _drx():
 
 
 def targets(tier):
-    return [Target("crc16_usb2", _usb2_crc16), Target("crc16_usb3", _usb3_crc16), Target("crc32_usb3", _usb3_crc32), _drx()]
+    from props import C37_hdrrx as _h37
+    return [Target("crc16_usb2", _usb2_crc16), Target("crc16_usb3", _usb3_crc16), Target("crc32_usb3", _usb3_crc32), _drx(), _h37.mk_raw()]
 
 
 def traces(target, rng, tier):
     if target.name == "drx_full":
         from props import C40 as _c40
         return _c40.traces(target, rng, tier)
+    if target.name == "rawrx":
+        from props import C37_hdrrx as _h37
+        return _h37.raw_traces(rng, tier) + _back_to_back_headers(rng)
     n = 25 if tier == "quick" else 150
     out = []
     for _ in range(n):
@@ -163,9 +169,30 @@ def _confirm(g, poly, W, D, kind):
     return cb
 
 
+def _back_to_back_headers(rng):
+    """Header packets separated by 0, 1, 2, 3 words (the receiver spends one cycle judging a packet): the second packet's
+    verdict must depend on its own check fields only."""
+    from props import C37_hdrrx as H
+    out = []
+    for gap in (0, 1, 2, 3):
+        for bad2 in (False, True):
+            tr = []
+            for k, bad in enumerate((False, bad2)):
+                ws = H.header_words(rng.getrandbits(32), rng.getrandbits(32), rng.getrandbits(32), k, bad16=bad)
+                tr += [{"sink_valid": 1, "sink_data": H.HP_START, "sink_ctrl": 15, "expected_sequence": k}]
+                tr += [{"sink_valid": 1, "sink_data": w, "sink_ctrl": 0, "expected_sequence": k} for w in ws]
+                tr += [{"sink_valid": 1, "sink_data": 0, "sink_ctrl": 0, "expected_sequence": (k + 1) % 8} for _ in range(gap)]
+            tr += [{"sink_valid": 1, "sink_data": 0, "sink_ctrl": 0, "expected_sequence": 2} for _ in range(4)]
+            out.append(tr)
+    return out
+
+
 def obligations(targets, tier):
-    t2, t3, t32, tdrx = targets
-    obs = [tie.cmon("accept_drx_full", tdrx, mon="(drx_spec_mon crc16_hdr crc32_usb 11 true)", m0="1",
+    t2, t3, t32, tdrx, traw = targets
+    obs = [tie.cmon("accept_rawrx", traw, mon="(rsx_monN 130)", m0="(packb 130 (rs_nums RS_HUNT ++ [0; 0]))",
+                    describe="RawHeaderPacketReceiver (real CRC-5 / header CRC-16 units): new_packet / bad_packet are the verdict of the declarative "
+                             "parser with the reference CRCs, over simulator traces incl. header packets 0..3 words apart"),
+           tie.cmon("accept_drx_full", tdrx, mon="(drx_spec_mon crc16_hdr crc32_usb 11 true)", m0="1",
                     describe="complete DataPacketReceiver (real CRC units): packet_good/packet_bad and the delivered payload are those of the "
                              "specification parser with the reference bit-serial CRCs, over simulator traces (every tail length, corrupted check "
                              "fields, aborted payloads followed by good packets, back-to-back packets)")]
